@@ -16,16 +16,48 @@ Proof. exact (defaults_in_families_spec _ _ C11_defaults_in_families). Qed.
 Print Assumptions C11_every_default_is_in_a_family.
 
 (* every node of every tree (any depth, any position) whose audited name is outside its trusted
-   list is reported ... *)
+   list is reported.  The kinds that audit the header's own module.class are all kinds but JsonNode (no name is
+   audited or resolved) and FunctionNode (next theorem) -- SliceNode included since the D31-SliceNode repair: its
+   get_unsafe_set used to return set() whatever the header named *)
+Theorem C11_kinds_auditing_their_name :
+  forall k, names_own k = true <-> (k <> KJson /\ k <> KFunction /\ k <> KFunctionV0).
+Proof. exact names_own_kinds. Qed.
+Print Assumptions C11_kinds_auditing_their_name.
+
 Theorem C11_outside_reported :
   forall E T t u, leafy t = true -> unsafe_tree E T t = Ok u ->
-  forall h subs nm, sub (Node h subs) t -> ukind_of (h_kind h) = UGeneric ->
+  forall h subs nm, sub (Node h subs) t -> names_own (h_kind h) = true ->
     node_name h = Ok nm -> mem nm (node_trusted E T h) = false -> In nm u.
 Proof.
   intros E T t u Hl Hu h subs nm Hs UK Hn Hm.
-  eapply unsafe_tree_complete; eauto. apply generic_contributes; assumption.
+  eapply unsafe_tree_complete; eauto. apply named_contributes; assumption.
 Qed.
 Print Assumptions C11_outside_reported.
+
+(* the same on the real audit (graph walk with its cycle guard) of any archive: a SliceNode, or any other node that
+   audits its own name, sitting anywhere in the tree with a name it does not trust is in get_untrusted_types *)
+Theorem C11_outside_reported_by_get_untrusted_types :
+  forall E schema G, get_untrusted_types E schema = Ok G ->
+  exists t m, root_tree E schema = Ok (t, m) /\
+    forall h subs nm, sub (Node h subs) t -> names_own (h_kind h) = true ->
+      node_name h = Ok nm -> mem nm (node_trusted E None h) = false -> In nm G.
+Proof.
+  intros E schema G HG. destruct (report_complete E schema G HG) as [t [m [RT Hc]]]. exists t, m. split; [exact RT|].
+  intros h subs nm Hs UK Hn Hm. eapply Hc; [exact Hs|]. apply named_contributes; assumption.
+Qed.
+Print Assumptions C11_outside_reported_by_get_untrusted_types.
+
+(* non-vacuity: a SliceNode naming x.y below a list, no trusted list *)
+Example C11_slice_outside_reported_example :
+  let hs := {| h_slot := SElem (s "content"); h_kind := KSlice; h_tag := s "_general.SliceNode"; h_id := None; h_extra := [];
+               h_class := JStr (s "y"); h_module := JStr (s "x"); h_aux := JNull |} in
+  let hl := {| h_slot := SOne (s "root"); h_kind := KList; h_tag := s "_general.ListNode"; h_id := None; h_extra := [];
+               h_class := JStr (s "list"); h_module := JStr (s "builtins"); h_aux := JNull |} in
+  let E := {| e_reg := Snapshot.registry; e_cur := Snapshot.current; e_classes := Snapshot.classes;
+              e_unavailable := Snapshot.unavailable; e_members := []; e_resolve := [] |} in
+  let t := Node hl [Node hs [Leaf (SOne (s "start")) (LRaw JNull); Leaf (SOne (s "stop")) (LRaw JNull); Leaf (SOne (s "step")) (LRaw JNull)]] in
+  names_own (h_kind hs) = true /\ leafy t = true /\ unsafe_tree E None t = Ok [s "x.y"] /\ unsafe E None t t = Ok [s "x.y"].
+Proof. vm_compute. repeat split; reflexivity. Qed.
 
 Theorem C11_function_outside_reported :
   forall E T t u, leafy t = true -> unsafe_tree E T t = Ok u ->
